@@ -97,15 +97,14 @@ def liveness_sweep(ctx, pid):
     ctx.cfg = "sweep"
     rows = [m for m in MUTATIONS if pid in m["expect"]]
     skipped, done = [], 0
-    for m in rows:
-        want = m["expect"][pid]
+
+    def do_row(m):
         tmp = tempfile.mkdtemp(prefix="mtsa-sweep-")
         try:
             for f in ("src", "benches", "tests", "Cargo.toml", "Cargo.lock"):
                 s_ = os.path.join(core.REPO, f)
                 if os.path.exists(s_):
                     (shutil.copytree if os.path.isdir(s_) else shutil.copy)(s_, os.path.join(tmp, f))
-            ok_apply = True
             for ed in m["edits"]:
                 if ed[0] == "re":
                     import glob
@@ -120,39 +119,93 @@ def liveness_sweep(ctx, pid):
                         if n_:
                             open(p_, "w").write(new_txt)
                     if hits == 0:
-                        ok_apply = False
-                        break
+                        return ("skip", m["name"])
                     continue
-                (fn, old, new) = ed
+                (fn, old_, new_) = ed
                 p_ = os.path.join(tmp, fn)
                 txt = open(p_).read()
-                if txt.count(old) != 1:
-                    ok_apply = False
-                    break
-                open(p_, "w").write(txt.replace(old, new))
-            if not ok_apply:
-                skipped.append(m["name"])
-                continue
+                if txt.count(old_) != 1:
+                    return ("skip", m["name"])
+                open(p_, "w").write(txt.replace(old_, new_))
             env = dict(os.environ, MTSA_REPO=tmp, MTSA_EVIDENCE_DIR=os.path.join(tmp, "evidence"), VERIF_TIER="quick")
             r = subprocess.run([os.path.join(core.VERIF, "bin/check"), pid, "--tier", "quick"], capture_output=True, text=True, env=env)
             out = r.stdout + r.stderr
             if "fact extraction failed" in out:
-                skipped.append(m["name"] + " (mutant does not compile on this tree)")
-                continue
+                return ("skip", m["name"] + " (mutant does not compile on this tree)")
             fired = [l.strip() for l in out.splitlines() if l.strip().startswith("violation rule=")]
-            done += 1
-            if want is None:
-                ctx.ob("liveness", "N: `%s` leaves %s silent" % (m["name"], pid), r.returncode == 0, "selftest", "false-alarm-on:" + m["name"],
-                       detail="the behaviour-preserving edit raised: %s" % "; ".join(fired)[:400])
-            else:
-                hit = [l for l in fired if want in l]
-                ctx.ob("liveness", "M: `%s` makes rule %s* fire" % (m["name"], want), r.returncode == 1 and bool(hit), "selftest", "missed-mutant:" + m["name"],
-                       detail="exit %d; fired: %s" % (r.returncode, "; ".join(fired)[:400]))
+            return ("done", r.returncode, fired)
         finally:
             shutil.rmtree(tmp, ignore_errors=True)
+    from concurrent.futures import ThreadPoolExecutor
+    with ThreadPoolExecutor(int(os.environ.get("MTSA_JOBS", "8"))) as ex:
+        results = list(ex.map(do_row, rows))
+    for m, res in zip(rows, results):
+        want = m["expect"][pid]
+        if res[0] == "skip":
+            skipped.append(res[1])
+            continue
+        _k, rc, fired = res
+        done += 1
+        if want is None:
+            ctx.ob("liveness", "N: `%s` leaves %s silent" % (m["name"], pid), rc == 0, "selftest", "false-alarm-on:" + m["name"],
+                   detail="the behaviour-preserving edit raised: %s" % "; ".join(fired)[:400])
+        else:
+            hit = [l for l in fired if want in l]
+            ctx.ob("liveness", "M: `%s` makes rule %s* fire" % (m["name"], want), rc == 1 and bool(hit), "selftest", "missed-mutant:" + m["name"],
+                   detail="exit %d; fired: %s" % (rc, "; ".join(fired)[:400]))
     ctx.note("liveness sweep: %d rows applied, %d skipped: %s" % (done, len(skipped), skipped))
     seeds = seed_sweep(ctx, pid)
-    return {"liveness_rows": done, "liveness_skipped": skipped, "seeded_changes": seeds}
+    neutral = neutral_sweep(ctx, pid)
+    return {"liveness_rows": done, "liveness_skipped": skipped, "seeded_changes": seeds, "neutral_refactors": neutral}
+
+
+def neutral_sweep(ctx, pid):
+    """Thorough tier: the independently produced behaviour-preserving refactorings (neutral/<name>/patch.diff) are applied one at a
+    time to a scratch copy of /repo's current tree; this property's check must stay silent on every one that neutral/RESULTS.json
+    records as silent for it (the recorded exceptions are the known incompleteness listed in DESIGN section 17)."""
+    import json
+    import shutil
+    import subprocess
+    import tempfile
+    ndir = os.path.join(core.VERIF, "neutral")
+    rp = os.path.join(ndir, "RESULTS.json")
+    if not os.path.exists(rp):
+        return {"applied": [], "note": "no neutral/RESULTS.json"}
+    rec = json.load(open(rp))
+    ctx.rule("neutral", "every stored behaviour-preserving refactoring recorded as silent for this property leaves the check silent")
+    todo = [n for n in sorted(rec) if pid not in rec[n].get("alarms", []) and os.path.exists(os.path.join(ndir, n, "patch.diff"))]
+    known = [n for n in sorted(rec) if pid in rec[n].get("alarms", [])]
+
+    def do_one(n):
+        tmp = tempfile.mkdtemp(prefix="mtsa-neutral-")
+        try:
+            for f in ("src", "benches", "tests", "Cargo.toml", "Cargo.lock"):
+                s_ = os.path.join(core.REPO, f)
+                if os.path.exists(s_):
+                    (shutil.copytree if os.path.isdir(s_) else shutil.copy)(s_, os.path.join(tmp, f))
+            subprocess.run(["git", "init", "-q"], cwd=tmp)
+            r = subprocess.run(["git", "apply", os.path.join(ndir, n, "patch.diff")], cwd=tmp, capture_output=True, text=True)
+            if r.returncode != 0:
+                return ("skip",)
+            env = dict(os.environ, MTSA_REPO=tmp, MTSA_EVIDENCE_DIR=os.path.join(tmp, "evidence"))
+            rr = subprocess.run([os.path.join(core.VERIF, "bin/check"), pid, "--tier", "quick"], capture_output=True, text=True, env=env)
+            fired = [l.strip() for l in rr.stdout.splitlines() if l.strip().startswith("violation rule=")]
+            return ("done", rr.returncode, fired)
+        finally:
+            shutil.rmtree(tmp, ignore_errors=True)
+    from concurrent.futures import ThreadPoolExecutor
+    with ThreadPoolExecutor(int(os.environ.get("MTSA_JOBS", "8"))) as ex:
+        results = list(ex.map(do_one, todo))
+    out = {"applied": [], "skipped": [], "known_incomplete": known}
+    for n, res in zip(todo, results):
+        if res[0] == "skip":
+            out["skipped"].append(n)
+            continue
+        out["applied"].append(n)
+        ctx.ob("neutral", "behaviour-preserving refactoring %s leaves %s silent" % (n, pid), res[1] == 0, "neutral/" + n, "false-alarm-on-refactor:" + n,
+               detail="raised: %s" % "; ".join(res[2])[:400])
+    ctx.note("neutral sweep: %s" % out)
+    return out
 
 
 def seed_sweep(ctx, pid):
@@ -166,6 +219,7 @@ def seed_sweep(ctx, pid):
     ctx.rule("seeds", "every seeded change recorded as caught (seeded/*/meta.json) is reported again on a scratch copy with the patch applied")
     out = {"applied": [], "skipped": [], "recorded_misses": []}
     sdir = os.path.join(core.VERIF, "seeded")
+    todo = []
     for d in sorted(os.listdir(sdir)):
         mp = os.path.join(sdir, d, "meta.json")
         if not os.path.exists(mp):
@@ -176,6 +230,10 @@ def seed_sweep(ctx, pid):
         if not (meta.get("detected_by") or {}).get("own_check"):
             out["recorded_misses"].append(d)
             continue
+        todo.append((d, meta))
+
+    def do_seed(dm):
+        d, meta = dm
         tmp = tempfile.mkdtemp(prefix="mtsa-seed-")
         try:
             for f in ("src", "benches", "tests", "Cargo.toml", "Cargo.lock"):
@@ -185,16 +243,23 @@ def seed_sweep(ctx, pid):
             subprocess.run(["git", "init", "-q"], cwd=tmp)
             r = subprocess.run(["git", "apply", os.path.join(sdir, d, "patch.diff")], cwd=tmp, capture_output=True, text=True)
             if r.returncode != 0:
-                out["skipped"].append(d)
-                continue
+                return ("skip",)
             env = dict(os.environ, MTSA_REPO=tmp, MTSA_EVIDENCE_DIR=os.path.join(tmp, "evidence"))
             rr = subprocess.run([os.path.join(core.VERIF, "bin/check"), pid, "--tier", "quick"], capture_output=True, text=True, env=env)
             fired = [l.strip() for l in rr.stdout.splitlines() if l.strip().startswith("violation rule=")]
-            out["applied"].append(d)
-            ctx.ob("seeds", "seeded change %s (%s) is reported" % (d, meta.get("needs_to_manifest", "")[:80]), rr.returncode == 1 and bool(fired), "seeded/" + d,
-                   "seed-not-reported:" + d, detail="exit %d" % rr.returncode)
+            return ("done", rr.returncode, fired)
         finally:
             shutil.rmtree(tmp, ignore_errors=True)
+    from concurrent.futures import ThreadPoolExecutor
+    with ThreadPoolExecutor(int(os.environ.get("MTSA_JOBS", "8"))) as ex:
+        results = list(ex.map(do_seed, todo))
+    for (d, meta), res in zip(todo, results):
+        if res[0] == "skip":
+            out["skipped"].append(d)
+            continue
+        out["applied"].append(d)
+        ctx.ob("seeds", "seeded change %s (%s) is reported" % (d, meta.get("needs_to_manifest", "")[:80]), res[1] == 1 and bool(res[2]), "seeded/" + d,
+               "seed-not-reported:" + d, detail="exit %d" % res[1])
     ctx.note("seed sweep: %s" % out)
     return out
 
